@@ -25,6 +25,7 @@ open Index
 /-- the types that fields and variables of the later cores have: primitive, or a list of primitives -/
 def isCoreTy : Ty → Bool
   | .list e => isPrimTy e
+  | .record _ _ => true
   | t => isPrimTy t
 
 theorem isCoreTy_of_prim {t : Ty} (h : isPrimTy t = true) : isCoreTy t = true := by
@@ -45,6 +46,14 @@ theorem coreCast_sound (sm : SymMap) (a b : Ty) (ha : isCoreTy a = true) (h : li
       have := primCast_sound sm e b' he h'
       unfold SymMap.canBeCastedTo at this
       simpa [Ty.canBeCastedTo] using this
+    | _ => first | rfl | (simp only [Ty.canBeCastedTo] at h ⊢; exact h)
+  | record ra rn =>
+    unfold litCastOk at h
+    unfold SymMap.canBeCastedTo
+    cases b with
+    | record rb rm =>
+      simp only [Ty.canBeCastedTo, Bool.or_false] at h
+      simp only [Ty.canBeCastedTo, h, Bool.true_or]
     | _ => first | rfl | (simp only [Ty.canBeCastedTo] at h ⊢; exact h)
   | _ => exact primCast_sound sm _ b ha h
 
@@ -333,9 +342,37 @@ theorem OuterOK.mono {sm sm' : SymMap} {rest : List Scope} {gv : Env} (h : Outer
   obtain ⟨hp, vid, v, h1, h2, h3⟩ := h name t hg
   exact ⟨hp, vid, v, h1, hk _ _ h2, h3⟩
 
+/-! ### static record ids of the classes -/
+
+/-- the record ids of the classes declared so far (`none`: the name is shadowed), the first entry of a name counts -/
+abbrev XTab := List (String × Option Nat)
+
+def XTab.get (xt : XTab) (name : String) : Option Nat := (xt.find? fun e => e.1 == name).bind (·.2)
+
+/-- the classes of `xt` are registered under their names with these ids, below `B` -/
+def XInv (xt : XTab) (B : Nat) (sm : SymMap) : Prop :=
+  ∀ name id, xt.get name = some id → sm.nameToClass[name]? = some id ∧ id < B
+
+theorem XInv.nil (B : Nat) (sm : SymMap) : XInv [] B sm := by
+  intro name id h
+  simp [XTab.get] at h
+
+theorem XInv.mono {xt : XTab} {B B' : Nat} {sm sm' : SymMap} (h : XInv xt B sm) (hB : B ≤ B')
+    (hn : ∀ name id, xt.get name = some id → sm'.nameToClass[name]? = sm.nameToClass[name]?) : XInv xt B' sm' :=
+  fun name id hg => ⟨by rw [hn name id hg]; exact (h name id hg).1, Nat.lt_of_lt_of_le (h name id hg).2 hB⟩
+
+theorem XTab.get_cons (xt : XTab) (name : String) (e : Option Nat) (nm : String) :
+    XTab.get ((name, e) :: xt) nm = if nm = name then e else xt.get nm := by
+  unfold XTab.get
+  simp only [List.find?_cons]
+  by_cases h : nm = name
+  · subst h; simp
+  · have : (name == nm) = false := by simpa using fun e => h e.symm
+    simp [h, this]
+
 /-! ### the invariant inside a record body -/
 
-structure PInv (cenv : CEnv) (N : Std.HashMap String Nat) (rid : Nat) (ps : Params) (bv gv : Env) (outer : List Scope) (env : Env) (c : IndexCtx) : Prop where
+structure PInv (cenv : CEnv) (N : Std.HashMap String Nat) (rid : Nat) (ps : Params) (bv gv : Env) (outer : List Scope) (xt : XTab) (env : Env) (c : IndexCtx) : Prop where
   k : KInv cenv rid c.symbolMap
   top : ∃ sc, c.scopes.scopes = sc :: outer ∧ sc.kind = .record rid ∧ VarsOK c.symbolMap sc bv ∧
     OuterOK c.symbolMap outer gv
@@ -344,23 +381,24 @@ structure PInv (cenv : CEnv) (N : Std.HashMap String Nat) (rid : Nat) (ps : Para
   tas : TAsOK c.symbolMap rid ps
   trace : c.fileTrace ≠ []
   ntc : c.symbolMap.nameToClass = N
+  x : XInv xt rid c.symbolMap
 
-theorem PInv.currentRecordId {cenv : CEnv} {N : Std.HashMap String Nat} {rid : Nat} {ps : Params} {bv gv : Env} {outer : List Scope} {env : Env} {c : IndexCtx} (h : PInv cenv N rid ps bv gv outer env c) :
+theorem PInv.currentRecordId {cenv : CEnv} {N : Std.HashMap String Nat} {rid : Nat} {ps : Params} {bv gv : Env} {outer : List Scope} {xt : XTab} {env : Env} {c : IndexCtx} (h : PInv cenv N rid ps bv gv outer xt env c) :
     c.scopes.currentRecordId = some rid := by
   obtain ⟨sc, hs, hk, _⟩ := h.top
   unfold Scopes.currentRecordId
   rw [hs]
   simp [Scope.recordId, hk]
 
-theorem PInv.find {cenv : CEnv} {N : Std.HashMap String Nat} {rid : Nat} {ps : Params} {bv gv : Env} {outer : List Scope} {env : Env} {c : IndexCtx} (h : PInv cenv N rid ps bv gv outer env c) (name : String) :
+theorem PInv.find {cenv : CEnv} {N : Std.HashMap String Nat} {rid : Nat} {ps : Params} {bv gv : Env} {outer : List Scope} {xt : XTab} {env : Env} {c : IndexCtx} (h : PInv cenv N rid ps bv gv outer xt env c) (name : String) :
     c.symbolMap.recordFindField rid name = ff c.symbolMap name rid :=
   recordFindField_eq_ff _ _ h.k.older rid (by have := h.newest; omega)
 
 /-- declaring the field `name : ty` of the record (a new field entry, registered in the record's own map) -/
-theorem PInv.declare {cenv : CEnv} {N : Std.HashMap String Nat} {rid : Nat} {ps : Params} {bv gv : Env} {outer : List Scope} {env env' : Env} {c : IndexCtx} (h : PInv cenv N rid ps bv gv outer env c)
+theorem PInv.declare {cenv : CEnv} {N : Std.HashMap String Nat} {rid : Nat} {ps : Params} {bv gv : Env} {outer : List Scope} {xt : XTab} {env env' : Env} {c : IndexCtx} (h : PInv cenv N rid ps bv gv outer xt env c)
     (name : String) (ty : Ty) (hty : isCoreTy ty = true) (loc : FileRange)
     (henv : ∀ n, env'.get n = if n = name then some ty else env.get n) :
-    PInv cenv N rid ps bv gv outer env' (withField c rid ⟨name, ty, rid, loc⟩) := by
+    PInv cenv N rid ps bv gv outer xt env' (withField c rid ⟨name, ty, rid, loc⟩) := by
   have hrid : rid < c.symbolMap.recordList.size := by have := h.newest; omega
   have hrl : (withField c rid ⟨name, ty, rid, loc⟩).symbolMap.recordList =
       c.symbolMap.recordList.modify rid fun rec =>
@@ -393,7 +431,7 @@ theorem PInv.declare {cenv : CEnv} {N : Std.HashMap String Nat} {rid : Nat} {ps 
     split at hp
     · exact h.k.older i hi p hp
     · exact h.k.older i hi p hp
-  refine ⟨?_, h.top, by rw [hsize]; exact h.newest, ?_, ?_, h.trace, h.ntc⟩
+  refine ⟨?_, h.top, by rw [hsize]; exact h.newest, ?_, ?_, h.trace, h.ntc, h.x⟩
   · exact h.k.transport (Nat.le_of_eq hsize.symm) hold hag (by rw [hfl]; simp) hfld (Nat.le_refl _) (fun _ _ => rfl)
       (fun _ _ _ => rfl)
   · intro n
@@ -429,16 +467,16 @@ theorem PInv.declare {cenv : CEnv} {N : Std.HashMap String Nat} {rid : Nat} {ps 
         exact ⟨hp, fid, h1, by rw [hfl]; simp; omega, by rw [hfld fid h2]; exact h3⟩
   · exact h.tas.transport (by rw [hrec rid hrid, if_pos rfl]) (Nat.le_refl _) (fun _ _ => rfl)
 
-theorem PInv.addReference {cenv : CEnv} {N : Std.HashMap String Nat} {rid : Nat} {ps : Params} {bv gv : Env} {outer : List Scope} {env : Env} {c : IndexCtx} (h : PInv cenv N rid ps bv gv outer env c)
-    (s : SymbolId) (loc : FileRange) : PInv cenv N rid ps bv gv outer env (c.setSM (c.symbolMap.addReference s loc)) :=
+theorem PInv.addReference {cenv : CEnv} {N : Std.HashMap String Nat} {rid : Nat} {ps : Params} {bv gv : Env} {outer : List Scope} {xt : XTab} {env : Env} {c : IndexCtx} (h : PInv cenv N rid ps bv gv outer xt env c)
+    (s : SymbolId) (loc : FileRange) : PInv cenv N rid ps bv gv outer xt env (c.setSM (c.symbolMap.addReference s loc)) :=
   ⟨h.k.transport (Nat.le_refl _) h.k.older (fun _ _ => rfl) (Nat.le_refl _) (fun _ _ => rfl) (Nat.le_refl _)
       (fun _ _ => rfl) (fun _ _ _ => rfl),
     h.top, h.newest,
     h.exact.transport (rid + 1) (Nat.lt_succ_self _) (fun i hi => h.k.older i (by have := h.newest; omega)) (fun _ _ => rfl) (Nat.le_refl _) (fun _ _ => rfl),
-    h.tas.transport rfl (Nat.le_refl _) (fun _ _ => rfl), h.trace, h.ntc⟩
+    h.tas.transport rfl (Nat.le_refl _) (fun _ _ => rfl), h.trace, h.ntc, h.x⟩
 
-theorem PInv.findLocal {cenv : CEnv} {N : Std.HashMap String Nat} {rid : Nat} {ps : Params} {bv gv : Env} {outer : List Scope} {env : Env} {c : IndexCtx}
-    (h : PInv cenv N rid ps bv gv outer env c) (name : String) (t : Ty) (hb : bv.get name = none) (hg : env.get name = some t) :
+theorem PInv.findLocal {cenv : CEnv} {N : Std.HashMap String Nat} {rid : Nat} {ps : Params} {bv gv : Env} {outer : List Scope} {xt : XTab} {env : Env} {c : IndexCtx}
+    (h : PInv cenv N rid ps bv gv outer xt env c) (name : String) (t : Ty) (hb : bv.get name = none) (hg : env.get name = some t) :
     isCoreTy t = true ∧ ∃ fid, c.symbolMap.recordFindField rid name = some fid ∧
       c.scopes.findLocal c.symbolMap name = some (.recordField fid) ∧ (c.symbolMap.recordField fid).typ = t := by
   obtain ⟨sc, hs, hk, hv0, _⟩ := h.top
@@ -457,8 +495,8 @@ theorem PInv.findLocal {cenv : CEnv} {N : Std.HashMap String Nat} {rid : Nat} {p
   simp only [h1, Scope.recordId, hk, hf]
 
 /-- a field in scope, as `find_field` sees it (the target of a `let`) -/
-theorem PInv.fieldOf {cenv : CEnv} {N : Std.HashMap String Nat} {rid : Nat} {ps : Params} {bv gv : Env} {outer : List Scope} {env : Env} {c : IndexCtx}
-    (h : PInv cenv N rid ps bv gv outer env c) (name : String) (t : Ty) (hg : env.get name = some t) :
+theorem PInv.fieldOf {cenv : CEnv} {N : Std.HashMap String Nat} {rid : Nat} {ps : Params} {bv gv : Env} {outer : List Scope} {xt : XTab} {env : Env} {c : IndexCtx}
+    (h : PInv cenv N rid ps bv gv outer xt env c) (name : String) (t : Ty) (hg : env.get name = some t) :
     isCoreTy t = true ∧ ∃ fid, c.symbolMap.recordFindField rid name = some fid ∧ (c.symbolMap.recordField fid).typ = t := by
   have := h.exact name
   rw [hg] at this
@@ -509,8 +547,8 @@ theorem ta_lookup (info : Nat → String × Ty × Bool) (l : List (String × Nat
         exact j1
 
 /-- an identifier that is no field in scope and names a template parameter of the record -/
-theorem PInv.findLocalTA {cenv : CEnv} {N : Std.HashMap String Nat} {rid : Nat} {ps : Params} {bv gv : Env} {outer : List Scope} {env : Env} {c : IndexCtx}
-    (h : PInv cenv N rid ps bv gv outer env c) (name : String) (t : Ty) (hb : bv.get name = none) (hn : env.get name = none)
+theorem PInv.findLocalTA {cenv : CEnv} {N : Std.HashMap String Nat} {rid : Nat} {ps : Params} {bv gv : Env} {outer : List Scope} {xt : XTab} {env : Env} {c : IndexCtx}
+    (h : PInv cenv N rid ps bv gv outer xt env c) (name : String) (t : Ty) (hb : bv.get name = none) (hn : env.get name = none)
     (hg : ps.env.get name = some t) :
     isCoreTy t = true ∧ ∃ tid, c.scopes.findLocal c.symbolMap name = some (.templateArgument tid) ∧
       (c.symbolMap.templateArg tid).typ = t := by
@@ -552,8 +590,8 @@ theorem var_typ_of_getElem? (sm : SymMap) (vid : Nat) (v : Variable) (h : sm.var
   simp [getElem!_def, h]
 
 /-- a variable of the record body (`defvar` in the body) -/
-theorem PInv.findLocalVar {cenv : CEnv} {N : Std.HashMap String Nat} {rid : Nat} {ps : Params} {bv gv : Env} {outer : List Scope} {env : Env}
-    {c : IndexCtx} (h : PInv cenv N rid ps bv gv outer env c) (name : String) (t : Ty) (hb : bv.get name = some t) :
+theorem PInv.findLocalVar {cenv : CEnv} {N : Std.HashMap String Nat} {rid : Nat} {ps : Params} {bv gv : Env} {outer : List Scope} {xt : XTab} {env : Env}
+    {c : IndexCtx} (h : PInv cenv N rid ps bv gv outer xt env c) (name : String) (t : Ty) (hb : bv.get name = some t) :
     isCoreTy t = true ∧ ∃ vid, c.scopes.findLocal c.symbolMap name = some (.var vid) ∧ (c.symbolMap.var vid).typ = t := by
   obtain ⟨sc, hs, hk, hv0, _⟩ := h.top
   have := hv0 name
@@ -568,8 +606,8 @@ theorem PInv.findLocalVar {cenv : CEnv} {N : Std.HashMap String Nat} {rid : Nat}
   rw [this]
 
 /-- a name that nothing in the record scope answers: a variable of the outer scopes (top-level `defvar`) -/
-theorem PInv.findLocalOuter {cenv : CEnv} {N : Std.HashMap String Nat} {rid : Nat} {ps : Params} {bv gv : Env} {outer : List Scope} {env : Env}
-    {c : IndexCtx} (h : PInv cenv N rid ps bv gv outer env c) (name : String) (t : Ty) (hb : bv.get name = none)
+theorem PInv.findLocalOuter {cenv : CEnv} {N : Std.HashMap String Nat} {rid : Nat} {ps : Params} {bv gv : Env} {outer : List Scope} {xt : XTab} {env : Env}
+    {c : IndexCtx} (h : PInv cenv N rid ps bv gv outer xt env c) (name : String) (t : Ty) (hb : bv.get name = none)
     (hn : env.get name = none) (hp : ps.env.get name = none) (hg : gv.get name = some t) :
     isCoreTy t = true ∧ ∃ vid, c.scopes.findLocal c.symbolMap name = some (.var vid) ∧ (c.symbolMap.var vid).typ = t := by
   obtain ⟨sc, hs, hk, hv0, ho⟩ := h.top
@@ -612,9 +650,9 @@ def withParent (c : IndexCtx) (rid cid : Nat) : IndexCtx :=
   c.setSM (c.symbolMap.modRecord rid fun rec => { rec with parentList := rec.parentList.push cid })
 
 /-- a new (last) parent `cid`, a class with exactly the fields `flds`: the fields in scope are `env ++ flds` -/
-theorem PInv.pushParent {cenv : CEnv} {N : Std.HashMap String Nat} {rid : Nat} {ps : Params} {bv gv : Env} {outer : List Scope} {env : Env} {c : IndexCtx}
-    (h : PInv cenv N rid ps bv gv outer env c) (cid : Nat) (hcid : cid < rid) (flds : Env) (hex : Exact c.symbolMap cid flds) :
-    PInv cenv N rid ps bv gv outer (env ++ flds) (withParent c rid cid) := by
+theorem PInv.pushParent {cenv : CEnv} {N : Std.HashMap String Nat} {rid : Nat} {ps : Params} {bv gv : Env} {outer : List Scope} {xt : XTab} {env : Env} {c : IndexCtx}
+    (h : PInv cenv N rid ps bv gv outer xt env c) (cid : Nat) (hcid : cid < rid) (flds : Env) (hex : Exact c.symbolMap cid flds) :
+    PInv cenv N rid ps bv gv outer xt (env ++ flds) (withParent c rid cid) := by
   have hrid : rid < c.symbolMap.recordList.size := by have := h.newest; omega
   have hrec : ∀ i, i < c.symbolMap.recordList.size →
       (withParent c rid cid).symbolMap.record i =
@@ -664,7 +702,7 @@ theorem PInv.pushParent {cenv : CEnv} {N : Std.HashMap String Nat} {rid : Nat} {
       cases (c.symbolMap.record rid).parentList.toList.findSome? (ff c.symbolMap name) with
       | some f => rfl
       | none => cases ff c.symbolMap name cid <;> rfl
-  refine ⟨?_, h.top, by rw [hsize]; exact h.newest, ?_, ?_, h.trace, h.ntc⟩
+  refine ⟨?_, h.top, by rw [hsize]; exact h.newest, ?_, ?_, h.trace, h.ntc, h.x⟩
   · exact h.k.transport (Nat.le_of_eq hsize.symm) hold hag (Nat.le_refl _) (fun _ _ => rfl) (Nat.le_refl _)
       (fun _ _ => rfl) (fun _ _ _ => rfl)
   · intro name
@@ -722,10 +760,10 @@ def coreParents3 (cenv : CEnv) : Env → List PTree → Option Env
 section core3
 variable (k : Nat)
 
-theorem parents3_step (cenv : CEnv) (N : Std.HashMap String Nat) (pcl : PTree) (rid : Nat) (ps : Params) (bv gv : Env) (outer : List Scope) (env env' : Env) (c c' : IndexCtx)
-    (hinv : PInv cenv N rid ps bv gv outer env c) (hchk : coreParents3 cenv env (Ast.parentClassListClasses pcl) = some env')
+theorem parents3_step (cenv : CEnv) (N : Std.HashMap String Nat) (pcl : PTree) (rid : Nat) (ps : Params) (bv gv : Env) (outer : List Scope) (xt : XTab) (env env' : Env) (c c' : IndexCtx)
+    (hinv : PInv cenv N rid ps bv gv outer xt env c) (hchk : coreParents3 cenv env (Ast.parentClassListClasses pcl) = some env')
     (hrun : (indexParentClassList (mkRec (k + 1)) pcl).run c = .ok ((), c')) :
-    c'.diagnostics = c.diagnostics ∧ PInv cenv N rid ps bv gv outer env' c' := by
+    c'.diagnostics = c.diagnostics ∧ PInv cenv N rid ps bv gv outer xt env' c' := by
   unfold indexParentClassList at hrun
   obtain ⟨r0, c0, h0, hrun1⟩ := IxM.run_bind_ok hrun
   rw [currentRecordId_run, hinv.currentRecordId] at h0
@@ -794,10 +832,10 @@ theorem parents3_step (cenv : CEnv) (N : Std.HashMap String Nat) (pcl : PTree) (
       exact ⟨q, hi⟩
 
 /-- the value of an accepted initialiser: its type can be cast to `ty`, nothing is reported -/
-theorem init3_value (cenv : CEnv) (N : Std.HashMap String Nat) (rid : Nat) (ps : Params) (bv gv : Env) (outer : List Scope) (env : Env) (ty : Ty) (v : PTree) (c : IndexCtx)
-    (hinv : PInv cenv N rid ps bv gv outer env c) (hci : coreInit2 (bv ++ (env ++ (ps.env ++ gv))) ty v = true) :
+theorem init3_value (cenv : CEnv) (N : Std.HashMap String Nat) (rid : Nat) (ps : Params) (bv gv : Env) (outer : List Scope) (xt : XTab) (env : Env) (ty : Ty) (v : PTree) (c : IndexCtx)
+    (hinv : PInv cenv N rid ps bv gv outer xt env c) (hci : coreInit2 (bv ++ (env ++ (ps.env ++ gv))) ty v = true) :
     ∃ vt c1, ((mkRec (k + 1)).value v).run c = .ok (some vt, c1) ∧ (∀ sm : SymMap, sm.canBeCastedTo vt ty = true) ∧
-      c1.diagnostics = c.diagnostics ∧ PInv cenv N rid ps bv gv outer env c1 := by
+      c1.diagnostics = c.diagnostics ∧ PInv cenv N rid ps bv gv outer xt env c1 := by
   obtain ⟨f, rest, hft⟩ : ∃ f rest, c.fileTrace = f :: rest := by
     cases hc : c.fileTrace with
     | nil => exact absurd hc hinv.trace
@@ -951,12 +989,12 @@ theorem coreInitL_false (scope : Env) (ty : Ty) (v : PTree) : coreInitL false sc
   simp [coreInitL]
 
 theorem initL_value (lists : Bool) (hk : lists = true → 0 < k) (cenv : CEnv) (N : Std.HashMap String Nat) (rid : Nat)
-    (ps : Params) (bv gv : Env) (outer : List Scope) (env : Env) (ty : Ty) (v : PTree) (c : IndexCtx)
-    (hinv : PInv cenv N rid ps bv gv outer env c) (hci : coreInitL lists (bv ++ (env ++ (ps.env ++ gv))) ty v = true) :
+    (ps : Params) (bv gv : Env) (outer : List Scope) (xt : XTab) (env : Env) (ty : Ty) (v : PTree) (c : IndexCtx)
+    (hinv : PInv cenv N rid ps bv gv outer xt env c) (hci : coreInitL lists (bv ++ (env ++ (ps.env ++ gv))) ty v = true) :
     ∃ vt c1, ((mkRec (k + 1)).value v).run c = .ok (some vt, c1) ∧ (∀ sm : SymMap, sm.canBeCastedTo vt ty = true) ∧
-      c1.diagnostics = c.diagnostics ∧ PInv cenv N rid ps bv gv outer env c1 := by
+      c1.diagnostics = c.diagnostics ∧ PInv cenv N rid ps bv gv outer xt env c1 := by
   by_cases h2 : coreInit2 (bv ++ (env ++ (ps.env ++ gv))) ty v = true
-  · exact init3_value k cenv N rid ps bv gv outer env ty v c hinv h2
+  · exact init3_value k cenv N rid ps bv gv outer xt env ty v c hinv h2
   · unfold coreInitL at hci
     simp only [h2, Bool.false_or, Bool.and_eq_true] at hci
     obtain ⟨hl, hci⟩ := hci
@@ -1011,10 +1049,10 @@ theorem coreFieldLet3_eq (env pe : Env) (n : PTree) : coreFieldLet3 env pe n = c
   simp only [coreInitL_false]
   rfl
 
-theorem fieldLetG_step (lists : Bool) (hk : lists = true → 0 < k) (cenv : CEnv) (N : Std.HashMap String Nat) (n : PTree) (rid : Nat) (ps : Params) (bv gv : Env) (outer : List Scope) (env : Env) (c c' : IndexCtx)
-    (hinv : PInv cenv N rid ps bv gv outer env c) (hchk : coreFieldLetG lists bv env (ps.env ++ gv) n = true)
+theorem fieldLetG_step (lists : Bool) (hk : lists = true → 0 < k) (cenv : CEnv) (N : Std.HashMap String Nat) (n : PTree) (rid : Nat) (ps : Params) (bv gv : Env) (outer : List Scope) (xt : XTab) (env : Env) (c c' : IndexCtx)
+    (hinv : PInv cenv N rid ps bv gv outer xt env c) (hchk : coreFieldLetG lists bv env (ps.env ++ gv) n = true)
     (hrun : (indexFieldLet (mkRec (k + 1)) n).run c = .ok ((), c')) :
-    c'.diagnostics = c.diagnostics ∧ PInv cenv N rid ps bv gv outer env c' := by
+    c'.diagnostics = c.diagnostics ∧ PInv cenv N rid ps bv gv outer xt env c' := by
   obtain ⟨f, rest, hft⟩ : ∃ f rest, c.fileTrace = f :: rest := by
     cases hc : c.fileTrace with
     | nil => exact absurd hc hinv.trace
@@ -1062,7 +1100,7 @@ theorem fieldLetG_step (lists : Bool) (hk : lists = true → 0 < k) (cenv : CEnv
       | some v =>
         rw [hv] at hrun hchk
         simp only at hrun hchk
-        obtain ⟨vt, c1, hvr, hcast, hd, hi⟩ := initL_value k lists hk cenv N rid ps bv gv outer env _ v _ hinv3 hchk
+        obtain ⟨vt, c1, hvr, hcast, hd, hi⟩ := initL_value k lists hk cenv N rid ps bv gv outer xt env _ v _ hinv3 hchk
         simp only [StateT.run_bind, hvr, Except.ok_bind, canBeCastedTo_run, hcast, Bool.not_true, Bool.false_eq_true,
           if_false] at hrun
         cases hrun
@@ -1074,7 +1112,7 @@ theorem fieldLetG_step (lists : Bool) (hk : lists = true → 0 < k) (cenv : CEnv
       | some v =>
         rw [hv] at hrun hchk
         simp only at hrun hchk
-        obtain ⟨vt, c1, hvr, hcast, hd, hi⟩ := initL_value k lists hk cenv N rid ps bv gv outer env _ v _ hinv3 hchk
+        obtain ⟨vt, c1, hvr, hcast, hd, hi⟩ := initL_value k lists hk cenv N rid ps bv gv outer xt env _ v _ hinv3 hchk
         simp only [StateT.run_bind, hvr, Except.ok_bind, canBeCastedTo_run, hcast, Bool.not_true, Bool.false_eq_true,
           if_false] at hrun
         cases hrun
@@ -1101,12 +1139,12 @@ def coreFieldDef3 (env pe : Env) (n : PTree) : Option Env :=
   | _, _ => none
 
 /-- the same with variables in front of the fields -/
-def coreFieldDefG (lists : Bool) (front env back : Env) (n : PTree) : Option Env :=
+def coreFieldDefG (tyOf : PTree → Option Ty) (lists : Bool) (front env back : Env) (n : PTree) : Option Env :=
   match Ast.fieldDefName n, Ast.fieldDefType n with
   | some nameNode, some tn =>
     match Ast.identifierValue nameNode, Ast.identifierRange nameNode with
     | some name, some _ =>
-      match coreTypeOf lists tn with
+      match tyOf tn with
       | some ty =>
         match Ast.fieldDefValue n with
         | none => some ((name, ty) :: env)
@@ -1115,7 +1153,7 @@ def coreFieldDefG (lists : Bool) (front env back : Env) (n : PTree) : Option Env
     | _, _ => none
   | _, _ => none
 
-theorem coreFieldDef3_eq (env pe : Env) (n : PTree) : coreFieldDef3 env pe n = coreFieldDefG false [] env pe n := by
+theorem coreFieldDef3_eq (env pe : Env) (n : PTree) : coreFieldDef3 env pe n = coreFieldDefG (coreTypeOf false) false [] env pe n := by
   unfold coreFieldDef3 coreFieldDefG coreTypeOf
   simp only [coreInitL_false, Bool.false_and, Bool.false_eq_true, if_false]
   cases Ast.fieldDefName n <;> cases Ast.fieldDefType n <;> try rfl
@@ -1127,10 +1165,24 @@ theorem coreFieldDef3_eq (env pe : Env) (n : PTree) : coreFieldDef3 env pe n = c
   · simp only [hp, if_true]; rfl
   · simp only [hp, Bool.false_eq_true, if_false]
 
-theorem fieldDefG_step (lists : Bool) (hk : lists = true → 0 < k) (cenv : CEnv) (N : Std.HashMap String Nat) (n : PTree) (rid : Nat) (ps : Params) (bv gv : Env) (outer : List Scope) (env env' : Env) (c c' : IndexCtx)
-    (hinv : PInv cenv N rid ps bv gv outer env c) (hchk : coreFieldDefG lists bv env (ps.env ++ gv) n = some env')
+/-- what the step lemmas need of a type checker `tyOf`: the type node is indexed to that type, nothing is reported,
+the invariant is kept -/
+def TyOracle (k : Nat) (tyOf : PTree → Option Ty) (cenv : CEnv) (N : Std.HashMap String Nat) (rid : Nat) (ps : Params)
+    (gv : Env) (outer : List Scope) (xt : XTab) : Prop :=
+  ∀ (tn : PTree) (ty : Ty) (bv env : Env) (c : IndexCtx), PInv cenv N rid ps bv gv outer xt env c → tyOf tn = some ty →
+    isCoreTy ty = true ∧ ∃ c0, ((mkRec (k + 1)).typ tn).run c = .ok (some ty, c0) ∧ c0.diagnostics = c.diagnostics ∧
+      PInv cenv N rid ps bv gv outer xt env c0
+
+theorem coreTypeOf_oracle (lists : Bool) (hk : lists = true → 0 < k) (cenv : CEnv) (N : Std.HashMap String Nat) (rid : Nat)
+    (ps : Params) (gv : Env) (outer : List Scope) (xt : XTab) :
+    TyOracle k (coreTypeOf lists) cenv N rid ps gv outer xt :=
+  fun tn ty _ _ c hinv h => ⟨coreTypeOf_core lists tn ty h, c, coreTypeOf_run k lists hk tn ty h c, rfl, hinv⟩
+
+theorem fieldDefG_step (tyOf : PTree → Option Ty) (lists : Bool) (hk : lists = true → 0 < k) (cenv : CEnv) (N : Std.HashMap String Nat) (n : PTree) (rid : Nat) (ps : Params) (bv gv : Env) (outer : List Scope) (xt : XTab) (env env' : Env) (c c' : IndexCtx)
+    (hinv : PInv cenv N rid ps bv gv outer xt env c) (htyO : TyOracle k tyOf cenv N rid ps gv outer xt)
+    (hchk : coreFieldDefG tyOf lists bv env (ps.env ++ gv) n = some env')
     (hrun : (indexFieldDef (mkRec (k + 1)) n).run c = .ok ((), c')) :
-    c'.diagnostics = c.diagnostics ∧ PInv cenv N rid ps bv gv outer env' c' := by
+    c'.diagnostics = c.diagnostics ∧ PInv cenv N rid ps bv gv outer xt env' c' := by
   obtain ⟨f, rest, hft⟩ : ∃ f rest, c.fileTrace = f :: rest := by
     cases hc : c.fileTrace with
     | nil => exact absurd hc hinv.trace
@@ -1152,36 +1204,35 @@ theorem fieldDefG_step (lists : Bool) (hk : lists = true → 0 < k) (cenv : CEnv
   | some se =>
   rw [hiv, hir] at hchk
   simp only at hchk
-  · cases hty : coreTypeOf lists tn with
+  · cases hty : tyOf tn with
     | none => rw [hty] at hchk; cases hchk
     | some ty =>
     rw [hty] at hchk
     simp only at hchk
-    have hpty := coreTypeOf_core lists tn ty hty
+    obtain ⟨hpty, c0, htyp, hd0, hinv0⟩ := htyO tn ty bv env c hinv hty
     have hid := identOf_of f nameNode name se hiv hir
-    have htyp : ((mkRec (k + 1)).typ tn).run c = .ok (some ty, c) := coreTypeOf_run k lists hk tn ty hty c
-    have hinv2 := hinv.declare name ty hpty ⟨f, se.1, se.2⟩ (env' := (name, ty) :: env) (Env.get_cons env name ty)
+    have hinv2 := hinv0.declare name ty hpty ⟨f, se.1, se.2⟩ (env' := (name, ty) :: env) (Env.get_cons env name ty)
     unfold indexFieldDef at hrun
     simp only [StateT.run_bind, currentRecordId_run, hinv.currentRecordId, Except.ok_bind, hnn,
       utilsIdentifier_runOf nameNode c f rest hft, hid, htn, htyp, addRecordField_run, recordMut_run] at hrun
-    change (StateT.run _ (withField c rid ⟨name, ty, rid, ⟨f, se.1, se.2⟩⟩)) = _ at hrun
+    change (StateT.run _ (withField c0 rid ⟨name, ty, rid, ⟨f, se.1, se.2⟩⟩)) = _ at hrun
     cases hv : Ast.fieldDefValue n with
     | none =>
       rw [hv] at hrun hchk
       cases hrun
       cases hchk
-      exact ⟨rfl, hinv2⟩
+      exact ⟨hd0, hinv2⟩
     | some v =>
       rw [hv] at hrun hchk
       simp only at hrun hchk
       by_cases hci : coreInitL lists (bv ++ (((name, ty) :: env) ++ (ps.env ++ gv))) ty v = true
       · simp only [hci, if_true] at hchk
         cases hchk
-        obtain ⟨vt, c1, hvr, hcast, hd, hi⟩ := initL_value k lists hk cenv N rid ps bv gv outer _ ty v _ hinv2 hci
+        obtain ⟨vt, c1, hvr, hcast, hd, hi⟩ := initL_value k lists hk cenv N rid ps bv gv outer xt _ ty v _ hinv2 hci
         simp only [StateT.run_bind, hvr, Except.ok_bind, canBeCastedTo_run, hcast, Bool.not_true, Bool.false_eq_true,
           if_false] at hrun
         cases hrun
-        exact ⟨hd, hi⟩
+        exact ⟨hd.trans hd0, hi⟩
       · simp only [hci, Bool.false_eq_true, if_false] at hchk
         cases hchk
 
@@ -1196,12 +1247,12 @@ def coreItems3 (pe : Env) : Env → List PTree → Option Env
     else if it.kind == .FieldLet && coreFieldLet3 env pe it then coreItems3 pe env rest
     else none
 
-theorem items3_step (cenv : CEnv) (N : Std.HashMap String Nat) (items : List PTree) (rid : Nat) (ps : Params) (outer : List Scope) (env env' : Env) (c c' : IndexCtx)
-    (u : PUnit) (hinv : PInv cenv N rid ps [] [] outer env c) (hchk : coreItems3 ps.env env items = some env')
+theorem items3_step (cenv : CEnv) (N : Std.HashMap String Nat) (items : List PTree) (rid : Nat) (ps : Params) (outer : List Scope) (xt : XTab) (env env' : Env) (c c' : IndexCtx)
+    (u : PUnit) (hinv : PInv cenv N rid ps [] [] outer xt env c) (hchk : coreItems3 ps.env env items = some env')
     (hrun : (forIn items PUnit.unit fun item _ => do
         indexBodyItem (mkRec (k + 1)) item
         pure (ForInStep.yield PUnit.unit)).run c = .ok (u, c')) :
-    c'.diagnostics = c.diagnostics ∧ PInv cenv N rid ps [] [] outer env' c' := by
+    c'.diagnostics = c.diagnostics ∧ PInv cenv N rid ps [] [] outer xt env' c' := by
   induction items generalizing env c with
   | nil =>
     simp only [List.forIn_nil, StateT.run_pure] at hrun
@@ -1223,7 +1274,8 @@ theorem items3_step (cenv : CEnv) (N : Std.HashMap String Nat) (items : List PTr
           unfold indexBodyItem at j1
           simp only [hkind] at j1
           exact j1
-        obtain ⟨hd1, hinv1⟩ := fieldDefG_step k false (fun h => nomatch h) cenv N it rid ps [] [] outer env env1 c c1 hinv
+        obtain ⟨hd1, hinv1⟩ := fieldDefG_step k (coreTypeOf false) false (fun h => nomatch h) cenv N it rid ps [] [] outer xt env env1 c c1 hinv
+          (coreTypeOf_oracle k false (fun h => nomatch h) cenv N rid ps [] outer xt)
           (by rw [List.append_nil, ← coreFieldDef3_eq]; exact hfd) j1'
         obtain ⟨hd2, r⟩ := ih env1 c1 hinv1 hchk hrun
         exact ⟨hd2.trans hd1, r⟩
@@ -1236,7 +1288,7 @@ theorem items3_step (cenv : CEnv) (N : Std.HashMap String Nat) (items : List PTr
           unfold indexBodyItem at j1
           simp only [hl.1] at j1
           exact j1
-        obtain ⟨hd1, hinv1⟩ := fieldLetG_step k false (fun h => nomatch h) cenv N it rid ps [] [] outer env c c1 hinv
+        obtain ⟨hd1, hinv1⟩ := fieldLetG_step k false (fun h => nomatch h) cenv N it rid ps [] [] outer xt env c c1 hinv
           (by rw [List.append_nil, ← coreFieldLet3_eq]; exact hl.2) j1'
         obtain ⟨hd2, r⟩ := ih env c1 hinv1 hchk hrun
         exact ⟨hd2.trans hd1, r⟩
@@ -1255,10 +1307,10 @@ def coreRecordBody3 (cenv : CEnv) (rb : PTree) : Option Env :=
       | some b => coreItems3 [] env (Ast.bodyItems b)
     | none => none
 
-theorem recordBody3_step (cenv : CEnv) (N : Std.HashMap String Nat) (rb : PTree) (rid : Nat) (outer : List Scope) (env' : Env) (c c' : IndexCtx)
-    (hinv : PInv cenv N rid [] [] [] outer [] c) (hchk : coreRecordBody3 cenv rb = some env')
+theorem recordBody3_step (cenv : CEnv) (N : Std.HashMap String Nat) (rb : PTree) (rid : Nat) (outer : List Scope) (xt : XTab) (env' : Env) (c c' : IndexCtx)
+    (hinv : PInv cenv N rid [] [] [] outer xt [] c) (hchk : coreRecordBody3 cenv rb = some env')
     (hrun : (indexRecordBody (mkRec (k + 1)) rb).run c = .ok ((), c')) :
-    c'.diagnostics = c.diagnostics ∧ PInv cenv N rid [] [] [] outer env' c' := by
+    c'.diagnostics = c.diagnostics ∧ PInv cenv N rid [] [] [] outer xt env' c' := by
   unfold coreRecordBody3 at hchk
   unfold indexRecordBody at hrun
   cases hp : Ast.recordBodyParentClassList rb with
@@ -1272,7 +1324,7 @@ theorem recordBody3_step (cenv : CEnv) (N : Std.HashMap String Nat) (rb : PTree)
       rw [hps] at hchk
       simp only at hchk
       obtain ⟨_, c1, h1, hrun⟩ := IxM.run_bind_ok hrun
-      obtain ⟨hd1, hinv1⟩ := parents3_step k cenv N pcl rid [] [] [] outer [] env c c1 hinv hps h1
+      obtain ⟨hd1, hinv1⟩ := parents3_step k cenv N pcl rid [] [] [] outer xt [] env c c1 hinv hps h1
       cases hb : Ast.recordBodyBody rb with
       | none => rw [hb] at hrun hchk; cases hrun; cases hchk; exact ⟨hd1, hinv1⟩
       | some b =>
@@ -1282,7 +1334,7 @@ theorem recordBody3_step (cenv : CEnv) (N : Std.HashMap String Nat) (rb : PTree)
         obtain ⟨u, c2, h2, h3⟩ := IxM.run_bind_ok hrun
         simp only [StateT.run_pure] at h3
         cases h3
-        obtain ⟨hd2, hinv2⟩ := items3_step k cenv N _ rid [] outer env env' c1 c' u hinv1 hchk h2
+        obtain ⟨hd2, hinv2⟩ := items3_step k cenv N _ rid [] outer xt env env' c1 c' u hinv1 hchk h2
         exact ⟨hd2.trans hd1, hinv2⟩
 
 
@@ -1416,13 +1468,15 @@ theorem CEnv.get_cons (cenv : CEnv) (name : String) (e : Option (Params × Env))
 
 /-- the state in which a record body is indexed: a new empty record `r` with the scope `Record(id)` on top -/
 theorem PInv.ofOpen {cenv cenv' : CEnv} {c3 c5 c6 : IndexCtx} (hT : TabInv cenv c3) {gv : Env}
-    (houter : OuterOK c3.symbolMap c3.scopes.scopes gv) (r : Record)
+    (houter : OuterOK c3.symbolMap c3.scopes.scopes gv) {xt xt' : XTab} (hx3 : XInv xt c3.symbolMap.recordList.size c3.symbolMap)
+    (hx : ∀ nm id, xt'.get nm = some id → xt.get nm = some id ∧
+      c5.symbolMap.nameToClass[nm]? = c3.symbolMap.nameToClass[nm]?) (r : Record)
     (hr1 : r.parentList = #[]) (hr2 : r.nameToRecordField = #[]) (hr3 : r.nameToTemplateArg = #[])
     (ho : OpenedRec r c3 c5)
     (hcls : ∀ cname e, cenv'.get cname = some e →
       cenv.get cname = some e ∧ c5.symbolMap.nameToClass[cname]? = c3.symbolMap.nameToClass[cname]?)
     (h6 : (scopesPush (.record c3.symbolMap.recordList.size)).run c5 = .ok ((), c6)) :
-    c6.diagnostics = c3.diagnostics ∧ PInv cenv' c5.symbolMap.nameToClass c3.symbolMap.recordList.size [] [] gv c3.scopes.scopes [] c6 := by
+    c6.diagnostics = c3.diagnostics ∧ PInv cenv' c5.symbolMap.nameToClass c3.symbolMap.recordList.size [] [] gv c3.scopes.scopes xt' [] c6 := by
   unfold scopesPush at h6
   rw [IxM.run_modify] at h6
   cases h6
@@ -1449,7 +1503,7 @@ theorem PInv.ofOpen {cenv cenv' : CEnv} {c3 c5 c6 : IndexCtx} (hT : TabInv cenv 
     · rw [hag i (by omega)] at hp
       exact hT.k.older i (by omega) p hp
   have hoB : OlderBelow c3.symbolMap c3.symbolMap.recordList.size := hT.k.older
-  refine ⟨ho.diag, ⟨⟨hold, by show _ ≤ c5.symbolMap.recordList.size; omega, ?_⟩, ?_, hsz.symm, ?_, ?_, ?_, rfl⟩⟩
+  refine ⟨ho.diag, ⟨⟨hold, by show _ ≤ c5.symbolMap.recordList.size; omega, ?_⟩, ?_, hsz.symm, ?_, ?_, ?_, rfl, ?_⟩⟩
   · intro cname ps flds hg
     obtain ⟨h1, h2⟩ := hcls cname _ hg
     obtain ⟨cid, e1, e2, e3, e4⟩ := hT.k.classes cname ps flds h1
@@ -1469,19 +1523,34 @@ theorem PInv.ofOpen {cenv cenv' : CEnv} {c3 c5 c6 : IndexCtx} (hT : TabInv cenv 
   · exact TAsOK.of_noTA (sm := c5.symbolMap) (by rw [hnew]; exact hr3)
   · show c5.fileTrace ≠ []
     rw [ho.trace]; exact hT.trace
+  · intro nm id hg
+    obtain ⟨h1, h2⟩ := hx nm id hg
+    exact ⟨h2.trans (hx3 nm id h1).1, (hx3 nm id h1).2⟩
 
 /-- after the `pop` that ends a record body the scope stack is the outer one -/
 theorem PInv.popped {cenv : CEnv} {N : Std.HashMap String Nat} {rid : Nat} {ps : Params} {bv gv : Env} {outer : List Scope}
-    {env : Env} {c4 c5 : IndexCtx} (h : PInv cenv N rid ps bv gv outer env c4) (hpop : scopesPop.run c4 = .ok ((), c5)) :
+    {env : Env} {c4 c5 : IndexCtx} (h : PInv cenv N rid ps bv gv outer xt env c4) (hpop : scopesPop.run c4 = .ok ((), c5)) :
     c5.scopes.scopes = outer := by
   obtain ⟨x, hx⟩ := (scopesPop_eqs hpop).2.2.2
   obtain ⟨sc, hs, _⟩ := h.top
   rw [hs] at hx
   exact (List.cons.inj hx).2.symm
 
+/-- the record ids after a record body: the table of the body, possibly extended by the record itself -/
+theorem PInv.closeX {cenv : CEnv} {N : Std.HashMap String Nat} {rid : Nat} {ps : Params} {bv gv : Env} {outer : List Scope}
+    {xt xtOut : XTab} {env : Env} {c4 c5 : IndexCtx} (h : PInv cenv N rid ps bv gv outer xt env c4)
+    (hout : ∀ nm id, xtOut.get nm = some id → xt.get nm = some id ∨ (N[nm]? = some rid ∧ id = rid))
+    (hsm : c5.symbolMap = c4.symbolMap) : XInv xtOut c5.symbolMap.recordList.size c5.symbolMap := by
+  intro nm id hg
+  rw [hsm]
+  rcases hout nm id hg with h1 | ⟨h1, h2⟩
+  · exact ⟨(h.x nm id h1).1, by have := (h.x nm id h1).2; have := h.newest; omega⟩
+  · subst h2
+    exact ⟨by rw [h.ntc]; exact h1, by have := h.newest; omega⟩
+
 /-- the class table after a record body -/
-theorem PInv.close {cenv' cenvOut : CEnv} {N : Std.HashMap String Nat} {rid : Nat} {ps : Params} {bv gv : Env} {outer : List Scope} {env : Env} {c4 c5 : IndexCtx}
-    (h : PInv cenv' N rid ps bv gv outer env c4)
+theorem PInv.close {cenv' cenvOut : CEnv} {N : Std.HashMap String Nat} {rid : Nat} {ps : Params} {bv gv : Env} {outer : List Scope} {xt : XTab} {env : Env} {c4 c5 : IndexCtx}
+    (h : PInv cenv' N rid ps bv gv outer xt env c4)
     (hout : ∀ cname e, cenvOut.get cname = some e →
       cenv'.get cname = some e ∨ (N[cname]? = some rid ∧ e = (ps, env)))
     (hsm : c5.symbolMap = c4.symbolMap) (htr : c5.fileTrace = c4.fileTrace) : TabInv cenvOut c5 := by
@@ -1573,7 +1642,8 @@ theorem indexClass3_step (cenv cenv' : CEnv) (n : PTree) (c c' : IndexCtx) (hT :
         rw [Std.HashMap.getElem?_insert]
         have : (name == cname) = false := by simpa using fun e' => e e'.symm
         simp [this]
-    obtain ⟨q3, hinv3⟩ := PInv.ofOpen (cenv' := (name, none) :: cenv) hT (OuterOK.nil _ _) _ rfl rfl rfl ho hcls h3
+    obtain ⟨q3, hinv3⟩ := PInv.ofOpen (cenv' := (name, none) :: cenv) hT (OuterOK.nil _ _) (xt := []) (xt' := []) (XInv.nil _ _)
+      (fun _ _ h => by simp [XTab.get] at h) _ rfl rfl rfl ho hcls h3
     have hN : (c.setSM (c.symbolMap.addRecord { name := name, kind := .cls, defineLoc := ⟨f, se.1, se.2⟩ } true).2).symbolMap.nameToClass[name]? =
         some c.symbolMap.recordList.size := by
       simp only [IndexCtx.setSM_symbolMap, t4]
@@ -1581,7 +1651,7 @@ theorem indexClass3_step (cenv cenv' : CEnv) (n : PTree) (c c' : IndexCtx) (hT :
     have hclose : ∀ (env : Env) (c4 : IndexCtx), c4.diagnostics = c.diagnostics →
         PInv ((name, none) :: cenv)
           (c.setSM (c.symbolMap.addRecord { name := name, kind := .cls, defineLoc := ⟨f, se.1, se.2⟩ } true).2).symbolMap.nameToClass
-          c.symbolMap.recordList.size [] [] [] c.scopes.scopes env c4 →
+          c.symbolMap.recordList.size [] [] [] c.scopes.scopes [] env c4 →
         scopesPop.run c4 = .ok ((), c') → c'.diagnostics = c.diagnostics ∧ TabInv ((name, some ([], env)) :: cenv) c' := by
       intro env c4 q4 hinv4 h5
       have s5 := scopesPop_eqs h5
@@ -1609,7 +1679,7 @@ theorem indexClass3_step (cenv cenv' : CEnv) (n : PTree) (c c' : IndexCtx) (hT :
         rw [hrb] at hchk
         cases hchk
         obtain ⟨_, c4, h4, hrun⟩ := IxM.run_bind_ok hrun
-        obtain ⟨q4, hinv4⟩ := recordBody3_step k _ _ rb _ _ env c3 c4 hinv3 hrb h4
+        obtain ⟨q4, hinv4⟩ := recordBody3_step k _ _ rb _ _ _ env c3 c4 hinv3 hrb h4
         exact hclose env c4 (q4.trans q3) hinv4 hrun
   · simp only [hta, Bool.false_eq_true, if_false] at hchk
     cases hchk
@@ -1622,32 +1692,42 @@ def coreDef3 (cenv : CEnv) (n : PTree) : Bool :=
   | some rb => (coreRecordBody3 cenv rb).isSome
 
 /-- `def`, for any checker `chk` of record bodies that is sound in the state right after the record was opened -/
-theorem indexDefG_step (cenv : CEnv) (chk : PTree → Option Env) (gv : Env)
+theorem indexDefG_step (cenv : CEnv) (chk : PTree → Option Env) (gv : Env) (xt : XTab)
     (hbody : ∀ (rb : PTree) (env : Env) (N : Std.HashMap String Nat) (rid : Nat) (outer : List Scope) (c6 c7 : IndexCtx),
-      PInv cenv N rid [] [] gv outer [] c6 → chk rb = some env → (indexRecordBody (mkRec (k + 1)) rb).run c6 = .ok ((), c7) →
-      c7.diagnostics = c6.diagnostics ∧ ∃ bv, PInv cenv N rid [] bv gv outer env c7)
+      PInv cenv N rid [] [] gv outer xt [] c6 → chk rb = some env → (indexRecordBody (mkRec (k + 1)) rb).run c6 = .ok ((), c7) →
+      c7.diagnostics = c6.diagnostics ∧ ∃ bv, PInv cenv N rid [] bv gv outer xt env c7)
     (n : PTree) (c c' : IndexCtx) (hT : TabInv cenv c) (houter : OuterOK c.symbolMap c.scopes.scopes gv)
+    (hxt : XInv xt c.symbolMap.recordList.size c.symbolMap)
     (hchk : ∀ rb, Ast.defRecordBody n = some rb → (chk rb).isSome = true)
     (hrun : (indexDef (mkRec (k + 1)) n).run c = .ok ((), c')) :
     c'.diagnostics = c.diagnostics ∧ TabInv cenv c' ∧
-      ((Ast.defRecordBody n).isSome = true → c'.scopes.scopes = c.scopes.scopes) := by
+      ((Ast.defRecordBody n).isSome = true → c'.scopes.scopes = c.scopes.scopes) ∧
+      XInv xt c'.symbolMap.recordList.size c'.symbolMap ∧
+      c'.symbolMap.recordList.size = c.symbolMap.recordList.size + 1 := by
   have hfin : ∀ (r : Record) (c3 c5 c6 : IndexCtx), SameTab c c3 → r.parentList = #[] → r.nameToRecordField = #[] →
       r.nameToTemplateArg = #[] → OpenedRec r c3 c5 → c5.symbolMap.nameToClass = c3.symbolMap.nameToClass →
       (scopesPush (.record c3.symbolMap.recordList.size)).run c5 = .ok ((), c6) →
       (∀ rb, Ast.defRecordBody n = some rb → ∃ c7, (indexRecordBody (mkRec (k + 1)) rb).run c6 = .ok ((), c7) ∧
         scopesPop.run c7 = .ok ((), c')) →
       (Ast.defRecordBody n = none → c' = c6) → c'.diagnostics = c.diagnostics ∧ TabInv cenv c' ∧
-        ((Ast.defRecordBody n).isSome = true → c'.scopes.scopes = c.scopes.scopes) := by
+        ((Ast.defRecordBody n).isSome = true → c'.scopes.scopes = c.scopes.scopes) ∧
+        XInv xt c'.symbolMap.recordList.size c'.symbolMap ∧
+        c'.symbolMap.recordList.size = c.symbolMap.recordList.size + 1 := by
     intro r c3 c5 c6 p3 hr1 hr2 hr3 ho hntc h6 hsome hnone
     have houter3 : OuterOK c3.symbolMap c3.scopes.scopes gv := by
       rw [p3.2.2.2.2.2.2.2]
       exact houter.mono (fun i x hx => by rw [p3.2.2.2.2.2.2.1]; exact hx)
-    obtain ⟨q6, hinv6⟩ := PInv.ofOpen (cenv' := cenv) (hT.same p3) houter3 r hr1 hr2 hr3 ho
+    have hx3 : XInv xt c3.symbolMap.recordList.size c3.symbolMap :=
+      hxt.mono (by rw [p3.2.2.1]; exact Nat.le_refl _) (fun _ _ _ => by rw [p3.2.2.2.2.1])
+    have hsz3 : c3.symbolMap.recordList.size = c.symbolMap.recordList.size := by rw [p3.2.2.1]
+    obtain ⟨q6, hinv6⟩ := PInv.ofOpen (cenv' := cenv) (hT.same p3) houter3 (xt := xt) (xt' := xt) hx3
+      (fun nm id hg => ⟨hg, by rw [hntc]⟩) r hr1 hr2 hr3 ho
       (fun cname flds hg => ⟨hg, by rw [hntc]⟩) h6
     cases hb : Ast.defRecordBody n with
     | none =>
       rw [hnone hb]
-      exact ⟨q6.trans p3.1, hinv6.close (fun _ _ hg => Or.inl hg) rfl rfl, fun h => by cases h⟩
+      exact ⟨q6.trans p3.1, hinv6.close (fun _ _ hg => Or.inl hg) rfl rfl, (fun h => by cases h),
+        hinv6.closeX (fun _ _ hg => Or.inl hg) rfl, by rw [← hinv6.newest, hsz3]⟩
     | some rb =>
       have hchk' := hchk rb hb
       simp only [Option.isSome_iff_exists] at hchk'
@@ -1656,7 +1736,8 @@ theorem indexDefG_step (cenv : CEnv) (chk : PTree → Option Env) (gv : Env)
       obtain ⟨q7, bv7, hinv7⟩ := hbody rb env _ _ _ c6 c7 hinv6 hrb h7
       have s8 := scopesPop_eqs h8
       exact ⟨((s8.1.trans q7).trans q6).trans p3.1, hinv7.close (fun _ _ hg => Or.inl hg) s8.2.2.1 s8.2.1,
-        fun _ => by rw [hinv7.popped h8, p3.2.2.2.2.2.2.2]⟩
+        (fun _ => by rw [hinv7.popped h8, p3.2.2.2.2.2.2.2]), hinv7.closeX (fun _ _ hg => Or.inl hg) s8.2.2.1,
+        by rw [s8.2.2.1, ← hinv7.newest, hsz3]⟩
   unfold indexDef at hrun
   obtain ⟨ds, c1, h1, hrun⟩ := IxM.run_bind_ok hrun
   have p1 : SameTab c c1 := same_sameFileDefset.run _ _ _ h1
@@ -1769,11 +1850,13 @@ theorem indexDefG_step (cenv : CEnv) (chk : PTree → Option Env) (gv : Env)
 theorem indexDef3_step (cenv : CEnv) (n : PTree) (c c' : IndexCtx) (hT : TabInv cenv c) (hchk : coreDef3 cenv n = true)
     (hrun : (indexDef (mkRec (k + 1)) n).run c = .ok ((), c')) : c'.diagnostics = c.diagnostics ∧ TabInv cenv c' := by
   suffices h : c'.diagnostics = c.diagnostics ∧ TabInv cenv c' ∧
-      ((Ast.defRecordBody n).isSome = true → c'.scopes.scopes = c.scopes.scopes) from ⟨h.1, h.2.1⟩
-  refine indexDefG_step k cenv (coreRecordBody3 cenv) []
+      ((Ast.defRecordBody n).isSome = true → c'.scopes.scopes = c.scopes.scopes) ∧
+      XInv [] c'.symbolMap.recordList.size c'.symbolMap ∧
+      c'.symbolMap.recordList.size = c.symbolMap.recordList.size + 1 from ⟨h.1, h.2.1⟩
+  refine indexDefG_step k cenv (coreRecordBody3 cenv) [] []
     (fun rb env N rid outer c6 c7 hinv hrb h7 =>
-      let ⟨q, hi⟩ := recordBody3_step k cenv N rb rid outer env c6 c7 hinv hrb h7
-      ⟨q, [], hi⟩) n c c' hT (OuterOK.nil _ _) ?_ hrun
+      let ⟨q, hi⟩ := recordBody3_step k cenv N rb rid outer [] env c6 c7 hinv hrb h7
+      ⟨q, [], hi⟩) n c c' hT (OuterOK.nil _ _) (XInv.nil _ _) ?_ hrun
   intro rb hb
   unfold coreDef3 at hchk
   rw [hb] at hchk
